@@ -118,7 +118,14 @@ def marker_len_case():
         exp = b"pre {{" + b"f" * n + b"}} post T-plain\n\n"
         v = []
         if got != exp: v.append(("transclude:long-marker", "marker of %d bytes: result %r..." % (n, got[-40:]), dict(marker_len=n)))
-        return (n, v, dict(judged=1))
+        # an opener that is never closed, n bytes before a genuine marker (the first "}}" after it belongs to that marker), alone and twice
+        for shape, src2 in (("unclosed-opener", b"pre {{ " + b"g" * n + b" mid {{t.txt}} post\n"), ("two-unclosed-openers", b"{{" + b"h" * n + b" {{ " + b"i" * 7 + b" {{t.txt}}{{t.txt}}\n")):
+            open(top, "wb").write(src2)
+            got2, man2 = mmd.transclude(src2, _dir.encode(), top.encode(), 0)
+            exp2 = src2.replace(b"{{t.txt}}", b"T-plain\n")
+            if got2 != exp2: v.append(("transclude:%s-before-marker" % shape, "unclosed '{{' %d bytes before a genuine marker: result %r..." % (n, got2[-60:]), dict(marker_len=n)))
+            if not any(m.endswith("t.txt") for m in (man2 or [])): v.append(("transclude:%s-before-marker:manifest" % shape, "the included file is missing from the manifest %r" % (man2,), dict(marker_len=n)))
+        return (n, v, dict(judged=3))
     return case, 10
 
 def cli_leg(rep, tier):
